@@ -468,6 +468,14 @@ func (f *fctx) indexAddr(ins *ssa.IndexAddr) {
 	case *types.Slice:
 		s := f.val(ins.X)
 		f.oblige("S", fmt.Sprintf("S/index@%s", f.insID(ins)), T(SBool, "(and (<= 0 %s) (< %s (seq.len %s)))", i.S, i.S, s.S), ins.Pos(), "slice index in range")
+		if _, isConst := ins.Index.(*ssa.Const); isConst {
+			if f.vc.orderTaint == nil {
+				f.vc.OrderCheck()
+			}
+			if f.vc.orderTaint[f.fn][ins.X] {
+				f.oblige("D", fmt.Sprintf("D/order@%s", f.insID(ins)), T(SBool, "(<= (seq.len %s) 1)", s.S), ins.Pos(), "constant index into a slice whose order comes from map iteration: at most one element")
+			}
+		}
 		f.places[ins] = &Place{Kind: PSliceElem, Seq: s, Index: i, Sort: s.Sort.Elem, Ty: xt.Elem()}
 	case *types.Pointer:
 		arr := xt.Elem().Underlying().(*types.Array)
